@@ -96,8 +96,16 @@ def replay(repo, reg, fi, con, inputs, repo_root):
     ver = Verifier(repo, Prover(timeout_ms=5000), reg, fi)
     pre = concrete_state(ver, con, fi, inputs)
     pre.old = pre
-    post = concrete_state(ver, con, fi, inputs, outputs=r["args"])
-    post.heap.update({k: v for k, v in pre.heap.items() if k not in post.heap})
+    out_state = concrete_state(ver, con, fi, inputs, outputs=r["args"])
+    # the post-state uses the SAME array objects as the pre-state (so that old()/same() relate them), with the output contents
+    post = pre.fork()
+    post.env = dict(pre.env)
+    for a in fi.node.args.args:
+        pv, ov = pre.env.get(a.arg), out_state.env.get(a.arg)
+        if isinstance(pv, Arr) and isinstance(ov, Arr):
+            post.heap[pv.obj.id] = out_state.heap[ov.obj.id]
+        elif isinstance(pv, ListObj) and isinstance(ov, ListObj):
+            post.heap[pv.id] = out_state.heap[ov.id]
     post.ghost_env = dict(pre.ghost_env)
     post.old = pre
     # requires must hold on the input, else the model is not an in-contract input
